@@ -258,6 +258,8 @@ def run(ck):
             hfl, cl = c12mod.header_flags(h)
             if "rustbindgen attribute=" in m or "rustbindgen derive=" in m:
                 continue      # user-supplied attributes / derives can make anything uncompilable (e.g. cfg(test) on a field)
+            if any(x.startswith(("--field-attr", "--with-attribute-custom", "--with-derive-custom")) for x in hfl):
+                continue      # user-supplied attributes / derives (e.g. cfg(test) on a field)
             if any(x in hfl for x in ("--represent-cxx-operators", "--use-distinct-char16-t", "--dynamic-loading", "--block-extern-crate", "--generate-block", "--raw-line", "--module-raw-line", "--ctypes-prefix")) or \
                any(x.startswith("--blocklist") for x in hfl) or "objc" in " ".join(cl):
                 continue      # needs another crate / names the user supplies (raw lines, blocklisted items, custom ctypes)
